@@ -43,7 +43,7 @@ def c01Ops : List (String × Handler) := [
     let verts ← listOf (v3 (K := K))
     let faces ← listOf face
     let mask ← listOf bool
-    let vs : List Int := verts.map fun v => vsign (tolK (K := K)) (offset o n v)
+    let vs : List Int := vsigns (tolK (K := K)) o n verts
     let ks := faces.zipIdx.map fun (f, i) => classifyFace (f.map fun j => vs.getD j 0) (mask.getD i true)
     pure (okLine (ks.map fun
       | .keep => "keep" | .drop => "drop" | .quad c => s!"quad{c}" | .tri c => s!"tri{c}")))
